@@ -27,7 +27,8 @@ def correspondence(ctx, model_available=True):
     quick = ctx.tier == "quick"
     rng = ctx.rng
     n = 60 if quick else 700
-    sessions = dp.make_sessions(rng, n, lambda k: dc.RUN_KINDS if k % 3 else KINDS, sizes=(5, 10, 20), inner_calls=0.4)
+    sessions = dp.make_sessions(rng, n, lambda k: dc.RUN_KINDS if k % 3 else KINDS, sizes=(5, 10, 20), inner_calls=0.4,
+                                fixed_texts=dp.REPEATED + dp.REPEATED + dp.LEAVING[:3])
     res = dp.correspondence("C12s", sessions, model_available, check_history=False)
     spec_failures = []
     stats = {"oracle_sessions": 0, "commands": 0, "finished": 0, "warnings": 0}
@@ -62,7 +63,8 @@ def correspondence(ctx, model_available=True):
 
 def search(ctx, breaks):
     out = []
-    for s in dp.make_sessions(ctx.rng, 200, lambda k: dc.RUN_KINDS, sizes=(5, 10, 20), inner_calls=0.6):
+    for s in dp.make_sessions(ctx.rng, 200, lambda k: dc.RUN_KINDS, sizes=(5, 10, 20), inner_calls=0.6,
+                              fixed_texts=dp.REPEATED * 3):
         p, _ = dp.run_oracle(s)
         if p:
             out.append({"what": p, "session": dp.session_json(s)})
